@@ -210,6 +210,11 @@ def _rotate_threads(n):
         pass
 
 
+def reset_interference():
+    """call at the start of a case so that the interference sequence is a function of the case alone"""
+    _INTERFERE_N[0] = 0
+
+
 def interfere(cfg):
     """construct and use sketches of OTHER configurations of the same family (see World.interfere)"""
     _INTERFERE_N[0] += 1
